@@ -285,6 +285,19 @@ fn run_case<C: Suite>(c: &Case) -> Outcome {
             } else {
                 cx.o.fail(format!("{tag}/zeroize-not-offered"), ctxs.clone());
             }
+            // the wipe must not depend on the public commitment next to the secret: empty (broadcast
+            // separately), one entry, the full one twice
+            let full = sh.commitment().coefficients().to_vec();
+            for (what, cm) in [("empty", vec![]), ("one entry", full[..1].to_vec()), ("doubled", [full.clone(), full.clone()].concat())] {
+                let odd = SecretShare::<C>::new(*sh.identifier(), *sh.signing_share(), fc::keys::VerifiableSecretSharingCommitment::<C>::new(cm));
+                cx.ctx = format!("{ctxs} commitment {what}");
+                cx.drop_check(Box::new(odd.clone()), &imgs);
+                let mut z = odd.clone();
+                if try_zeroize!(&mut z) && z.signing_share().to_scalar() != zero::<C>() {
+                    cx.o.fail(format!("{tag}/zeroize-leaves-secret"), cx.ctx.clone());
+                }
+            }
+            cx.ctx = ctxs.clone();
         }
         "KeyPackage" => {
             let kp = grp.kps[&id].clone();
@@ -344,6 +357,18 @@ fn run_case<C: Suite>(c: &Case) -> Outcome {
             } else {
                 cx.o.fail(format!("{tag}/zeroize-not-offered"), ctxs.clone());
             }
+            // one of the two nonces neutral (zero), the other secret: the other one is still wiped
+            for (what, hh, bb) in [("zero hiding nonce", zero::<C>(), b), ("zero binding nonce", h, zero::<C>())] {
+                let odd = fc::round1::SigningNonces::<C>::from_nonces(fc::round1::Nonce::<C>::from_scalar(hh), fc::round1::Nonce::<C>::from_scalar(bb));
+                let keep = if hh == zero::<C>() { bb } else { hh };
+                cx.ctx = format!("{ctxs} {what}");
+                cx.drop_check(Box::new(odd.clone()), &[image::<C>(&keep)]);
+                let mut z = odd.clone();
+                if try_zeroize!(&mut z) && (z.hiding().to_scalar() != zero::<C>() || z.binding().to_scalar() != zero::<C>()) {
+                    cx.o.fail(format!("{tag}/zeroize-leaves-secret"), cx.ctx.clone());
+                }
+            }
+            cx.ctx = ctxs.clone();
         }
         "dkg::round1::SecretPackage" | "refresh::round1::SecretPackage" => {
             let mut rng = ScriptedRng::ctr(format!("c20d1:{}", c.seed));
